@@ -193,6 +193,16 @@ impl<R> Archive<R> {
             .chunker_params
             .ok_or_else(|| ArchiveError::invalid_archive("invalid chunker parameters"))?;
         let chunk_hash_length = chunker_params.chunk_hash_length as usize;
+        // A chunk is identified by the first chunk_hash_length bytes of its checksum,
+        // every stored checksum must be at least that long.
+        if chunk_hash_length < 1
+            || chunk_hash_length > HashSum::MAX_LEN
+            || archive_chunks
+                .iter()
+                .any(|cd| cd.checksum.len() < chunk_hash_length)
+        {
+            return Err(ArchiveError::invalid_archive("invalid chunk hash length"));
+        }
         let source_order = dictionary
             .rebuild_order
             .into_iter()
